@@ -1,0 +1,37 @@
+// Verification hooks (add-only). Compiled to nothing unless the library is
+// built with -DCIDERPRESS_VERIF, and silent at run time unless the environment
+// variable CIDERPRESS_VERIF is set and CIDERPRESS_VERIF_TRACE names a file.
+// Each event records how a parallel region split its iteration space:
+//   region nthreads ithread lo hi n
+#ifndef _CIDER_VERIF_H
+#define _CIDER_VERIF_H
+
+#ifdef CIDERPRESS_VERIF
+#include <stdio.h>
+#include <stdlib.h>
+static inline void cider_verif_event(const char *region, int nthreads,
+                                     int ithread, long lo, long hi, long n) {
+    if (getenv("CIDERPRESS_VERIF") == NULL) {
+        return;
+    }
+    const char *fname = getenv("CIDERPRESS_VERIF_TRACE");
+    if (fname == NULL) {
+        return;
+    }
+#pragma omp critical(cider_verif)
+    {
+        FILE *fp = fopen(fname, "a");
+        if (fp != NULL) {
+            fprintf(fp, "%s %d %d %ld %ld %ld\n", region, nthreads, ithread,
+                    lo, hi, n);
+            fclose(fp);
+        }
+    }
+}
+#define CIDER_VERIF_EVENT(r, T, t, lo, hi, n)                                  \
+    cider_verif_event(r, T, t, lo, hi, n)
+#else
+#define CIDER_VERIF_EVENT(r, T, t, lo, hi, n) ((void)0)
+#endif
+
+#endif
